@@ -270,7 +270,7 @@ func hangLimit() time.Duration {
 		}
 	}
 	switch hangProp {
-	case "C03", "C07", "C14", "C15":
+	case "C03", "C04", "C07", "C14", "C15", "C18":
 		return 300 * time.Second
 	}
 	return 60 * time.Second
